@@ -37,8 +37,9 @@ Over(e) ==
   \/ EffLine(e.cfg) > 0 /\ e.rllen > EffLine(e.cfg) + 2
   \/ e.nfields > EffFields(e.cfg)
   \/ EffFS(e.cfg) > 0 /\ e.maxfield > EffFS(e.cfg)
+(* (the request line is measured without its CRLF: a line of exactly limit_request_line bytes is within the limit) *)
 Within(e) ==
-  /\ EffLine(e.cfg) > 0 => e.rllen + 2 <= EffLine(e.cfg)
+  /\ EffLine(e.cfg) > 0 => e.rllen <= EffLine(e.cfg)
   /\ e.nfields <= EffFields(e.cfg)
   /\ EffFS(e.cfg) > 0 => e.maxfield + 2 <= EffFS(e.cfg)
 
